@@ -462,7 +462,7 @@ func (w *world) shiftRun(g *hx.Rng, pl shiftPlan) []string {
 				iv := w.flush(e, !g.Chance(10))
 				note(e, fmt.Sprintf("flush -> %d", iv))
 			}
-		case r < 72:
+		case r < 70:
 			toB := g.Chance(55)
 			q, seen, dst := &w.netAB, &seenAB, w.b
 			if !toB {
@@ -486,6 +486,34 @@ func (w *world) shiftRun(g *hx.Rng, pl shiftPlan) []string {
 				w.input(dst, take(q, seen, idx), true, g.Chance(20))
 			}
 			note(dst, fmt.Sprintf("deliver fate %d idx %d", fate, idx))
+		case r < 78:
+			// forged input built RELATIVE to the live state (so that it is shift-equivariant): an ACK
+			// beyond what was transmitted / an in- or out-of-window PUSH, timestamps around now
+			d := kcp.VerifKCPState(e.k)
+			p := make([]byte, 24)
+			binary.LittleEndian.PutUint32(p, d.Conv)
+			binary.LittleEndian.PutUint16(p[6:], uint16(g.Intn(64)))
+			ts := w.now + []uint32{0, 1, 0xFFFFFFFF, uint32(0) - d.RxRto, 5}[g.Intn(5)]
+			binary.LittleEndian.PutUint32(p[8:], ts)
+			what := ""
+			if g.Bool() {
+				p[4] = 82
+				sn := d.SndUna + uint32(g.Intn(int(d.SndNxt-d.SndUna)+3))
+				binary.LittleEndian.PutUint32(p[12:], sn)
+				binary.LittleEndian.PutUint32(p[16:], d.SndUna+uint32(g.Intn(2)))
+				what = fmt.Sprintf("forged ack +%d", sn-d.SndUna)
+			} else {
+				p[4] = 81
+				sn := d.RcvNxt + uint32(g.Intn(int(d.RcvWnd)+3)) - 1
+				binary.LittleEndian.PutUint32(p[12:], sn)
+				binary.LittleEndian.PutUint32(p[16:], d.SndUna)
+				binary.LittleEndian.PutUint32(p[20:], 3)
+				p = append(p, byte(sn-d.RcvNxt), 7, 9)
+				what = fmt.Sprintf("forged push %+d", int32(sn-d.RcvNxt))
+			}
+			w.forged = true
+			w.input(e, p, true, g.Chance(30))
+			note(e, what)
 		case r < 86:
 			before := len(e.got) + len(e.gotMsgs)
 			w.recv(e, []int{0, 1, 4096, 70000}[g.Intn(4)])
@@ -566,7 +594,7 @@ func RunClean(o *hx.Out, g *hx.Rng, tier string) {
 func RunStall(o *hx.Out, g *hx.Rng, tier string) {
 	o.Res.Rule = baseRule + "stalled reader: pause point/length, receive window 1..64, loss masks on WASK/WINS/ACK (and data) during and after the pause, with and without congestion control"
 	w := &world{o: o, g: g, tier: tier}
-	for i := 0; i < scaled(tier, 25, 400); i++ {
+	for i := 0; i < scaled(tier, 12, 400); i++ {
 		w.stalledReader()
 	}
 }
